@@ -60,7 +60,7 @@ SC = "Self-composition on the real Solver.solve loop: two (three) solves in ONE 
 CHECKS.update(
     C08=dict(text=SC + "B = A with iteration limit k in [0,K] symbolic, or with a deadline anywhere in its symbolic clock-read sequence: B's trials are A's prefix, B's result is A's current iterate at that moment, status is a limit status, counters agree, no rejected point leaks; the deadline between two Newton iterations of the real ExactController yields an unaccepted trial (L2).", note=L1NOTE + " The unlimited run is a run limited to K trial steps.", ref="DESIGN.md §6 C08"),
     C09=dict(text=SC + "B = A plus observers (display interval symbolic against a symbolic clock = every pattern of displayed rows, DEBUG/INFO logging, recording callback, collect_path): identical trials, status, solution, counters, and no exception on any path; the DEBUG-level inner display of the real controllers runs at L2 without failure.", note=L1NOTE + " report_rcond is NOT covered (the condition estimator does not terminate in the solver); bit-identity in floating point outside (exact reals).", ref="DESIGN.md §6 C09"),
-    C10=dict(text=SC + "A on a new Solver, B again on the same Solver object, C on a fresh Solver afterwards: identical trials, status, solution and counters on every path; Params object unmodified.", note=L1NOTE + " Controller memory is per solve (created inside solve()); state inside compiled linear solvers outside.", ref="DESIGN.md §6 C10"),
+    C10=dict(text=SC + "A on a new Solver, B again on the same Solver object, C on a fresh Solver afterwards: identical trials, status, solution and counters on every path; Params object unmodified; the same composition with the REAL step controllers / Newton methods / PI controller (oracle behind the public Params.step_solver hook, replayed by call index): identical trial points, step sizes, penalties, Newton iterates and results.", note=L1NOTE + " Real-controller composition: K=2 (3), n=1, <=4 (6) Newton solves, termination reduced to the budget; state inside compiled linear solvers outside.", ref="DESIGN.md §6 C10"),
 )
 
 CHECKS.update(
